@@ -1,0 +1,41 @@
+//go:build verif
+
+// Package simhook holds the seams used by the deterministic simulation harness.
+// This is the `verif` build: every seam is a settable variable, nil/false by default
+// (in which case behavior is the same as the regular build).
+package simhook
+
+import "context"
+
+var (
+	// NoCacheFlag makes the function result cache always miss and never store.
+	NoCacheFlag bool
+	// ContextWrapper, if set, wraps every context installed by eval.State.SetContext.
+	ContextWrapper func(context.Context) context.Context
+	// FreeMemoryFn, if set and returning ok, replaces the runtime based free memory estimate.
+	FreeMemoryFn func() (int64, bool)
+	// PointFn, if set, is called at each named step.
+	PointFn func(string)
+)
+
+func NoCache() bool { return NoCacheFlag }
+
+func WrapContext(ctx context.Context) context.Context {
+	if ContextWrapper == nil {
+		return ctx
+	}
+	return ContextWrapper(ctx)
+}
+
+func FreeMemory() (int64, bool) {
+	if FreeMemoryFn == nil {
+		return 0, false
+	}
+	return FreeMemoryFn()
+}
+
+func Point(name string) {
+	if PointFn != nil {
+		PointFn(name)
+	}
+}
